@@ -1107,8 +1107,25 @@ def _(H):
 @op("model.solver=", "solver", weight=1.5)
 def _(H):
     new = H.rng.choice(["glpk", "glpk_exact"])
-    H.model.solver = new
-    return {"solver": new}
+    # check_solver documents three argument forms: a name, an optlang interface module, and
+    # an optlang Model (meaning "the interface of that problem"; the model keeps its own
+    # problem, translated).  The instance handed over is an unrelated one-variable problem,
+    # so a model that adopts it instead of translating its own is seen by the LP read-back.
+    form = H.rng.choice(["name", "name", "module", "instance"])
+    if form == "name":
+        H.model.solver = new
+    else:
+        import optlang
+
+        iface = getattr(optlang, new + "_interface")
+        if form == "module":
+            H.model.solver = iface
+        else:
+            other = iface.Model()
+            other.add(iface.Variable("cv_foreign_column", lb=0, ub=1))
+            other.update()
+            H.model.solver = other
+    return {"solver": new, "form": form}
 
 
 @op("model.tolerance=", "solver", weight=0.4)
